@@ -185,7 +185,7 @@ def profile_bounds(job, wd, inputs, cfiles, inc, dfl):
     def one(vals):
         cmd = ['cbmc'] + cfiles + inc + dfl + ['-DVERIF_FIXED=' + ','.join('%dULL' % v for v in vals), '--unwind', str(job.get('profile_unwind', 80)), '--no-malloc-may-fail', '--drop-unused-functions',
                '--no-pointer-check', '--no-bounds-check', '--no-div-by-zero-check', '--no-standard-checks', '--verbosity', '9', '--program-only'] + [a for a in job.get('cbmc_extra', []) if a != '--no-array-field-sensitivity']
-        rc, out, t = sh(cmd, timeout=180, mem_gb=8)
+        rc, out, t = sh(cmd, timeout=job.get('profile_timeout', 180), mem_gb=8)
         loc = {}
         if rc == 'timeout': return loc
         for m in re.finditer(r'Unwinding loop (\S+) iteration (\d+)', out):
